@@ -30,7 +30,11 @@ class C12(Check):
             "datagrams: accepted requests preceded and interleaved by every other outcome of the accept policy (FORMERR, "
             "NOTIMP, ignore, undecodable body, shorter than a header, custom policy), each accepted request held in "
             "MsgAcceptFunc while the next two datagrams are received; kept-request and reply-octet oracles plus: no read "
-            "returns a buffer whose datagram has not left MsgAcceptFunc yet (DecorateReader). Non-trivial = at least "
+            "returns a buffer whose datagram has not left MsgAcceptFunc yet (DecorateReader). The same histories behind "
+            "decorated readers (header/trailer stripped: sub-slice, capacity cut, copy) and writers (header, trailer, two "
+            "datagrams) with on-wire sizes directed at UDPSize. Wildcard UDP listeners (udp4, udp6, dual-stack) reached "
+            "through several local addresses at once, handlers writing 1-3 replies with other requests in between: every "
+            "reply arrives from the address its client sent to. Non-trivial = at least "
             "one message delivered or an ok exchange; distinct by hash.")
     partial = [
         "no mixing across requests, connections or recycled buffers under real concurrency is a RUNTIME OBSERVATION: "
